@@ -189,13 +189,21 @@ def build(lib, case, rng):
     # built the way Transaction.create builds: in steps, reading size / id in between (the serialisation and id caches
     # must follow every add_inputs / add_outputs)
     tx = lib.Transaction(version=unlimbs(shape['ver']), locktime=unlimbs(shape['lock']))
-    tx.add_inputs(ins[:1])
-    _ = tx.size, tx.id
-    tx.add_outputs(outs[:1])
-    _ = tx.size, tx.id, tx.hash
-    tx.add_inputs(ins[1:])
-    _ = tx.size
-    tx.add_outputs(outs[1:])
+    if (len(ins) + len(outs) + len(blobs)) % 2:
+        tx.add_inputs(ins[:1])
+        _ = tx.size, tx.id
+        tx.add_outputs(outs[:1])
+        _ = tx.size, tx.id, tx.hash
+        tx.add_inputs(ins[1:])
+        _ = tx.size
+        tx.add_outputs(outs[1:])
+    else:
+        # the other order: outputs first, ids read (also through an output), inputs LAST - nothing after add_inputs
+        tx.add_outputs(outs)
+        _ = tx.size, tx.id, tx.hash, (outs[0].id if outs else None)
+        tx.add_inputs(ins[:1])
+        _ = tx.id, tx.hash
+        tx.add_inputs(ins[1:])
     return tx, blobs
 
 
